@@ -33,6 +33,10 @@ pub fn file_name() -> impl Strategy<Value = String> {
         1 => Just(":".to_string()),
         1 => Just("- a:1".to_string()),
         1 => "[a-z]{60,120}\\.sol",
+        // markup-like and bidirectional control characters
+        1 => prop::sample::select(vec!["Vault<T>.sol", "a<b>c.sol", "<>.sol", "a&b.sol", "&lt;.sol", "a*b*.sol", "`tick`.sol", "[l](x).sol", "a\\b.sol", "x\u{202e}y.sol", "\u{2066}z\u{2069}.sol", "a\tb.sol", "_a_.sol", "a|b.sol"]).prop_map(|s| s.to_string()),
+        // names that coincide under a coarser comparison (letter case, numeric value of digit runs)
+        2 => prop::sample::select(vec!["token.sol", "TOKEN.sol", "Token.SOL", "Vault_v1.sol", "Vault_v01.sol", "Vault_v001.sol", "V18446744073709551616.sol", "V18446744073709551617.sol", "stra\u{df}e.sol", "STRASSE.sol", "strasse.sol"]).prop_map(|s| s.to_string()),
         2 => "\\PC{1,16}".prop_filter("no line breaks", |s| !s.contains('\n') && !s.contains('\r') && !s.is_empty()),
     ]
 }
@@ -54,6 +58,17 @@ pub fn files(allow_empty: bool) -> impl Strategy<Value = Vec<(String, BTreeSet<i
         }),
         // many files under one pattern (sizes around 256)
         1 => prop::collection::vec(("[a-z]{1,6}\\.sol", line_set()), 250..300),
+        // groups of entries that tie under a coarser sort key: the same line set under names that
+        // differ only in letter case / number spelling (or not at all)
+        3 => (prop::sample::subsequence(vec!["Token.sol", "token.sol", "TOKEN.sol", "Vault_v1.sol", "Vault_v01.sol", "Vault_v001.sol", "Token.sol"], 2..=5), line_set(), prop::collection::vec((file_name(), line_set()), 0..3)).prop_map(|(names, lines, mut rest)| {
+            for n in names {
+                rest.push((n.to_string(), lines.clone()));
+            }
+            rest
+        }).prop_shuffle(),
+        // more than 32 entries under few names with different line sets (sorting networks and
+        // insertion sorts for short slices behave stably; longer slices do not)
+        2 => prop::collection::vec((prop::sample::select(vec!["Dup.sol", "dup.sol", "Other.sol"]).prop_map(|s| s.to_string()), line_set()), 33..90),
     ]
 }
 
